@@ -67,6 +67,15 @@ def run(d, tier, inplace=False):
             rc, out = p.returncode, p.stdout.decode("utf-8", "replace")
         finally:
             sh(["git", "worktree", "remove", "--force", wt], cwd=REPO)
+            # the run regenerated coq/Gen from the patched worktree: put /repo's tables back
+            try:
+                sys.path.insert(0, ROOT)
+                import verif
+                gens = getattr(verif.load_checks()[pid], "GEN", None) or []
+                if gens:
+                    sh([os.path.join(ROOT, "harness", "bin", "gen")] + list(gens) + ["--repo", REPO, "--out", os.path.join(ROOT, "coq", "Gen")], cwd=ROOT)
+            except Exception as e:
+                print("warning: could not regenerate coq/Gen from /repo:", e)
     viol = [l for l in out.splitlines() if l.startswith("VIOLATION")]
     detected = rc == 1 and bool(viol)
     concrete = any("no-failing-input-found" not in l for l in viol)
